@@ -32,7 +32,7 @@ RULE = (
     "over all 2-worker schedules <= p pre-emptions; distinct = distinct (item, vector/schedule, traffic); non-trivial = the run sent requests"
 )
 BOUNDS = {
-    "quick": {"seeds": [0, 1], "vectors": "reference + 5 single-factor + all-factors", "preemptions": 1, "max_exec_per_item": 3000},
+    "quick": {"seeds": [0, 1], "vectors": "reference + 5 single-factor + all-factors; order-sensitive documents: hash seeds 0..4", "preemptions": 1, "max_exec_per_item": 3000},
     "thorough": {"seeds": [0, 1, 2], "vectors": "full product 2^4 x repeat", "preemptions": 2, "max_exec_per_item": 20000},
 }
 BUDGET_S = {"quick": 140, "thorough": 3300}
@@ -79,7 +79,59 @@ RICH = {
     },
 }
 
-DOCS = {**ee.DOCS, "rich": RICH}
+# documents whose definitions are naturally held in unordered collections by an implementation: several security schemes
+# required together / as alternatives, several media types, several tags, parameters of one name in two locations, and (2.0)
+# a parameter carrying both `example` and `x-example`
+_OK = {"200": {"description": "OK"}}
+MULTI3 = {
+    "openapi": "3.0.2", "info": {"title": "t", "version": "1"},
+    "paths": {
+        "/orders": {
+            "get": {
+                "tags": ["b", "a", "c"],
+                "security": [{"ApiKey": [], "TenantKey": []}, {"Token": [], "Signature": []}],
+                "parameters": [{"name": "limit", "in": "query", "schema": {"type": "integer", "minimum": 1, "maximum": 3}, "example": 2},
+                               {"name": "id", "in": "query", "schema": {"type": "integer"}, "examples": {"one": {"value": 1}, "two": {"value": 2}}},
+                               {"name": "id", "in": "header", "schema": {"type": "string", "enum": ["h1", "h2"]}}],
+                "responses": _OK,
+            },
+            "post": {
+                "security": [{"Basic": [], "ApiKey": []}],
+                "requestBody": {"required": True, "content": {
+                    "application/json": {"schema": {"type": "object", "properties": {"n": {"type": "integer", "minimum": 0, "maximum": 2}}, "required": ["n"]}},
+                    "application/x-www-form-urlencoded": {"schema": {"type": "object", "properties": {"n": {"type": "integer", "minimum": 0, "maximum": 2}}, "required": ["n"]}},
+                    "text/plain": {"schema": {"type": "string", "enum": ["p", "q"]}}}},
+                "responses": _OK,
+            },
+        },
+    },
+    "components": {"securitySchemes": {
+        "ApiKey": {"type": "apiKey", "in": "header", "name": "X-Api-Key"}, "TenantKey": {"type": "apiKey", "in": "header", "name": "X-Tenant-Key"},
+        "Token": {"type": "apiKey", "in": "query", "name": "token"}, "Signature": {"type": "apiKey", "in": "query", "name": "signature"},
+        "Basic": {"type": "http", "scheme": "basic"}}},
+}
+MULTI2 = {
+    "swagger": "2.0", "info": {"title": "t", "version": "1"}, "consumes": ["application/json", "application/x-www-form-urlencoded"],
+    "securityDefinitions": {"ApiKey": {"type": "apiKey", "in": "header", "name": "X-Api-Key"}, "Token": {"type": "apiKey", "in": "query", "name": "token"},
+                            "Basic": {"type": "basic"}},
+    "paths": {
+        "/orders": {
+            "get": {
+                "security": [{"ApiKey": [], "Token": [], "Basic": []}],
+                "parameters": [{"name": "kind", "in": "query", "type": "string", "enum": ["k1", "k2", "k3"], "example": "k1", "x-example": "k2"},
+                               {"name": "X-Mode", "in": "header", "type": "string", "enum": ["m1", "m2"], "x-example": "m2", "example": "m1"}],
+                "responses": _OK,
+            },
+            "post": {
+                "parameters": [{"name": "body", "in": "body", "required": True,
+                                "schema": {"type": "object", "properties": {"n": {"type": "integer", "minimum": 0, "maximum": 2}}, "required": ["n"]}}],
+                "responses": _OK,
+            },
+        },
+    },
+}
+MULTI_DOCS = {"multi3": MULTI3, "multi2": MULTI2}
+DOCS = {**ee.DOCS, "rich": RICH, **MULTI_DOCS}
 WARMUP_DOC = "link"
 
 
@@ -94,8 +146,13 @@ def handler(ex: httpseam.Exchange) -> tuple:
 VECTOR_FACTORS = ["hashseed", "rand", "warm", "time_offset"]
 
 
-def vectors(tier: str) -> list[dict]:
+HASH_ONLY_SEEDS = [0, 1, 2, 3, 4]  # (a pair of names keeps its order under two given hash seeds with probability 1/2)
+
+
+def vectors(tier: str, kind: str = "full") -> list[dict]:
     ref = {"hashseed": 0, "rand": 1, "warm": False, "time_offset": 0}
+    if kind == "hash_only":
+        return [{**ref, "hashseed": h} for h in HASH_ONLY_SEEDS]
     alt = {"hashseed": 1, "rand": 2, "warm": True, "time_offset": 86400.5}
     out = [dict(ref)]
     if tier == "quick":
@@ -125,6 +182,11 @@ def items(tier: str, seed: int) -> list[dict]:
                     modes_list.append(["positive", "negative"])
                 for modes in modes_list:
                     out.append({"part": "a", "doc": doc, "seed": base_seed + s, "phases": phases, "modes": modes})
+    # the order-sensitive documents: hash seed is the only factor varied (the other factors are covered by the documents above)
+    for doc in MULTI_DOCS:
+        for phases in (["examples"], ["coverage"], ["fuzzing"]):
+            modes = ["positive", "negative"] if phases != ["examples"] else ["positive"]
+            out.append({"part": "a", "doc": doc, "seed": base_seed, "phases": phases, "modes": modes, "vectors": "hash_only"})
     b_items = [("unit3", ["coverage"]), ("unit3", ["fuzzing"]), ("rich", ["coverage"]), ("unit2", ["examples", "fuzzing"])]
     if tier == "thorough":
         b_items += [("unit3", ["examples", "coverage", "fuzzing"]), ("rich", ["fuzzing"])]
@@ -157,8 +219,9 @@ def check_a(item: dict, tier: str) -> Result:
     res = Result()
     job = {"doc": item["doc"], "seed": item["seed"], "phases": item["phases"], "modes": item["modes"]}
     reference = None
-    for vec in vectors(tier):
-        spec = {"jobs": [job], "rand": vec["rand"], "warm": vec["warm"], "time_offset": vec["time_offset"], "repeat": 2}
+    kind = item.get("vectors", "full")
+    for vec in vectors(tier, kind):
+        spec = {"jobs": [job], "rand": vec["rand"], "warm": vec["warm"], "time_offset": vec["time_offset"], "repeat": 2 if kind == "full" else 1}
         runs = run_child(spec, vec["hashseed"])[0]
         res.evaluations += len(runs)
         res.states += 1
@@ -174,7 +237,7 @@ def check_a(item: dict, tier: str) -> Result:
                     res.samples.append({"item": item, "requests_per_phase": {k: len(v) for k, v in run["traffic"].items()},
                                         "first_requests": [r[:2] for v in run["traffic"].values() for r in v][:5]})
                 continue
-            changed = sorted(f for f in VECTOR_FACTORS if vec[f] != vectors(tier)[0][f]) + (["second_run_in_process"] if idx else [])
+            changed = sorted(f for f in VECTOR_FACTORS if vec[f] != vectors(tier, kind)[0][f]) + (["second_run_in_process"] if idx else [])
             for phase in set(reference["traffic"]) | set(run["traffic"]):
                 a, b = reference["traffic"].get(phase, []), run["traffic"].get(phase, [])
                 if a != b:
